@@ -158,7 +158,7 @@ theorem C05_cancelled {cfg : Cfg} {s s' : State} {t : Tid} {cnd : Option Cond} {
 /-- Inside the wait loop of mu_wait.c:240-258 with sem_outcome ≠ 0 (the timed-out / cancelled pass,
     including mu_try_acquire_after_timeout_or_cancel). -/
 def PC.expired : PC → Bool
-  | .mwWaitLd c | .mwLd244 c | .mwLd255 c | .mtLd c | .mtCasAcq c _ | .mtCasWW c _ | .mtLdW c _ | .mtLdRc c _
+  | .mwWaitLd c | .mwLd244 c | .mwLd255 c | .mtLd c | .mtCasAcq c _ | .mtCasWW c _ | .mtLdWk c _ | .mtLdW c _ | .mtLdRc c _
   | .mtRmLd c _ | .mtRmCas c _ _ | .mtStW c _ | .mtStRel c _ _ => c.so != .ok
   | _ => false
 
